@@ -318,11 +318,28 @@ def slim(ev):
     return e
 
 
+def tlc_view(r):
+    """the part of a recorded event that GridTrace.tla reads (numeric digests and worst-error notes are for other comparisons)"""
+    o = r.get("obs")
+    if not isinstance(o, dict):
+        return r
+    o2 = {}
+    for k, v in o.items():
+        if k in ("num", "grad_fd_worst"):
+            continue
+        o2[k] = {f: x for f, x in v.items() if f != "worst"} if isinstance(v, dict) else v
+    r2 = dict(r)
+    r2["obs"] = o2
+    return r2
+
+
 def validate_file(path):
     """TLC-validate a concatenated trace; after a rejection the offending execution is dropped and the rest re-run"""
     rows = vf.read_ndjson(path)
     execs = split_execs(rows)
     total = len(execs)
+    if total == 0:
+        return {"ok": 0, "rej": [], "gen": 0, "dist": 0, "left": 0, "total": 0}
     rejections, n_ok, gen, dist, rounds = [], 0, 0, 0, 0
     while execs and rounds < 8:
         rounds += 1
@@ -376,7 +393,7 @@ def req_name(reqtext):
     return reqtext.strip('"')
 
 
-def run_grid(ctx, scen_sets, obs_mask, prop, chunk=None, timeout=240, variant="hooks", env=None, tag="", keep_traces=None, exec_nproc=None, driver="grid_replay.cpp", own_all=False):
+def run_grid(ctx, scen_sets, obs_mask, prop, chunk=None, timeout=240, variant="hooks", env=None, tag="", keep_traces=None, exec_nproc=None, driver="grid_replay.cpp", own_all=False, validate=True, identical_to=None):
     """scen_sets: list of (label, [scenario text]).  Executes on the real library, validates with TLC,
     reports rejections that concern `prop`; others are counted as foreign (and examined by their own check)."""
     lib = vf.build_lib(variant)
@@ -449,7 +466,33 @@ def run_grid(ctx, scen_sets, obs_mask, prop, chunk=None, timeout=240, variant="h
         act = [a for a in act if not a.startswith("@")]
         sig = "crash:%s:%s" % (act[0] if act else "?", "hang" if c["timed_out"] else "rc=%s" % c["rc"])
         ctx.report(sig, "the library crashed or hung inside a scripted call (no exception): %s" % json.dumps(c)[:1500], c)
-    ctx.extra["driver_crashes"] = len(crashes)
+    ctx.extra["driver_crashes"] = ctx.extra.get("driver_crashes", 0) + len(crashes)
+    if not validate:
+        # executions recorded for comparison only (grids too large for TLC's set arithmetic)
+        if keep_traces is not None:
+            for f in files:
+                keep_traces[os.path.basename(f[1])] = f[2]
+        return []
+    if identical_to:
+        # TLC's verdict is a function of the fields it reads: an execution that equals, field for field, an execution already
+        # validated (the serial build's) needs no second run; only executions that differ are validated again
+        skipped = 0
+        for label, sp, tp in files:
+            refp = identical_to.get(os.path.basename(sp))
+            if not refp:
+                continue
+            ref_ex = {ex[0].get("scen"): [tlc_view(r) for r in ex] for ex in split_execs(vf.read_ndjson(refp))}
+            keep = []
+            for ex in split_execs(vf.read_ndjson(tp)):
+                if ref_ex.get(ex[0].get("scen")) == [tlc_view(r) for r in ex]:
+                    skipped += 1
+                else:
+                    keep += ex
+            os.replace(tp, tp + ".full")
+            vf.write_ndjson(tp, keep)
+        ctx.extra["executions_identical_to_validated_serial_trace"] = ctx.extra.get("executions_identical_to_validated_serial_trace", 0) + skipped
+        ctx.traces += skipped
+
     def timed_validate(tp):
         t0 = time.time()
         r = validate_file(tp)
@@ -482,6 +525,8 @@ def run_grid(ctx, scen_sets, obs_mask, prop, chunk=None, timeout=240, variant="h
                 owner = "C08"
             st = ev.get("st", {})
             sig = "%s:%s:%s:%s%s" % (ev.get("e", "?"), name, st.get("fam", "?"), sig_detail(ev, rj), sig_suffix(ev, (rj["raw_req"] or [""])[0]))
+            if name == "obs-nodal" and ev.get("e") in ("loadc", "finish") and prop == "C09":
+                owner = "C09"         # the surrogate of a constructed grid differs from the one-batch surrogate: C01 and C09 both own it
             if own_all:
                 owner = prop          # every state in these traces was produced by the front end under test
             if owner != prop:
